@@ -137,6 +137,7 @@ class Stats:
     self.errors = []
     self.excluded_paths = 0
     self.maybe_infeasible = 0
+    self.generic_disagreements = 0
 
   def merge(self, o):
     for k in self.q: self.q[k] += o.q[k]
